@@ -26,7 +26,7 @@ EXPLANATION = (
     " Round 4: only get_char_width consults the wcwidth package (C11.3); (10) RANGE - every ordinal decode_one can return is at most 0x10FFFF (bit-arithmetic upper bounds, tightened by the branch's own comparison); (11) scan-exit twins; (12) a distance bound on the continuation-byte scans leaves room for 4 bytes; (13) PAIRLEN in apply_target_encoding."
     " Round-4 triage: (14) every position move_next_char returns is start + 1, clamped with min(.., end_offs), or the index of a scan bounded by end_offs. Round 5: (15) no memoised (lru_cache) function reads a rebindable module global such as the byte-encoding mode; (16) move_prev_char / move_next_char answer for non-UTF-8 bytes only after the within_double_byte() test."
     ' Round 6: (17) SIB: bytes the strict UTF-8 codec rejects are measured by walking with decode_one(), as the offset functions do; no width / offset function uses a codec error policy of its own.'
-    ' Round 7: (19) TAB: the pairing DEC_SPECIAL_CHARS / ALT_DEC_SPECIAL_CHARS (folded) equals the VT100 special graphics set for every alias letter ` .. ~ - the one table urwid cannot cross-check against itself; (20) SIB: every within_double_byte() call passes the caller\'s own start offset as line start.'
+    ' Round 7: (19) TAB: the pairing DEC_SPECIAL_CHARS / ALT_DEC_SPECIAL_CHARS (folded) equals the VT100 special graphics set for every alias letter ` .. ~ - the one table urwid cannot cross-check against itself; (20) SIB: every within_double_byte() call passes the caller\'s own start offset as line start; (21) BOUND: every text[o] read of the continuation-byte scans is guarded by the range limit (fix fad7df9).'
 )
 NOT_DECIDED = "Additivity of widths, offset/column agreement, str-vs-bytes agreement for every code point, the padding flags of trimming, DEC special character mapping values - exhaustive value questions over code points."
 ASSUMPTIONS = ["Canonical codec spellings are taken from the analysing interpreter's codec registry (codecs.lookup(name).name)."]
@@ -470,8 +470,8 @@ def rule_scan_exit_twins(ctx: Ctx, clause: str = "C11.11") -> RuleResult:
 
 def rule_utf8_scan_bound(ctx: Ctx, clause: str = "C11.12") -> RuleResult:
     """move_next_char / move_prev_char step over the continuation bytes of one UTF-8 character.  A UTF-8 sequence
-    has up to 4 bytes (lead + 3 continuation bytes).  The scans need no distance bound at all (the text ends the
-    forward scan, a non-continuation byte the backward one); if one is written, it must leave room for all 4 bytes:
+    has up to 4 bytes (lead + 3 continuation bytes).  Apart from the limit of the range (C11.21) the scans need no distance bound; if
+    one is written, it must leave room for all 4 bytes:
     forward `o < start + k` needs k >= 4, backward `o > end - k` needs k >= 4."""
     from ..rules.defuse import DefUse
     from ..rules.util import linear
@@ -511,6 +511,55 @@ def rule_utf8_scan_bound(ctx: Ctx, clause: str = "C11.12") -> RuleResult:
                     rr.inst(f"{short(fi)}:{norm(c, 40)}", True, {"bound": norm(b, 40), "constant": k})
                     if not ok:
                         rr.add(finding("TAB", fi, n.stmt, f"the continuation-byte scan is bounded by `{norm(b, 40)}`: a 4-byte UTF-8 character (lead + 3 continuation bytes, U+10000 and above) does not fit, so the step ends inside the character and next/previous no longer agree", construct=f"utf8 scan bounded by {norm(b, 40)}"))
+    return rr
+
+
+def rule_utf8_scan_range(ctx: Ctx, clause: str = "C11.21") -> RuleResult:
+    """The continuation-byte scans read text[o] for a moving o.  Each read is guarded, earlier in the same `and`
+    chain of the loop test, by the comparison of o with the limit of the range the caller passed: forward
+    `o < end_offs`, backward `o > start_offs`.  Without it invalid UTF-8 (a run of continuation bytes with no lead
+    byte in the range) walks the backward scan below start_offs and off the front of the text: before fix
+    fad7df9 move_prev_char(b'\\x80', 0, 1) raised IndexError and (b'ab\\x80\\x80', 2, 4) answered 1."""
+    from ..rules.defuse import DefUse
+
+    p = ctx.p
+    rr = RuleResult("BOUND", clause, "every text[o] read in the UTF-8 continuation-byte scans is guarded by o < end_offs (forward) / o > start_offs (backward) earlier in the loop test", floor=2)
+    for q, limit_i, ops in ((f"{SU}.move_next_char", 2, (ast.Lt,)), (f"{SU}.move_prev_char", 1, (ast.Gt,))):
+        fi = p.func(q)
+        limit = fi.params[limit_i]
+        loops = [n for n in fi.own_nodes() if isinstance(n, ast.While) and "0xC0" in ast.unparse(n.test).replace("0xc0", "0xC0").replace("192", "0xC0")]
+        if not loops:
+            raise AnalysisError(f"{q}: the UTF-8 continuation-byte loop was not found")
+        du = DefUse(fi)
+        tighter = "min" if ops == (ast.Lt,) else "max"
+
+        def is_limit(e, at):
+            # the limit itself, or a local that is min(limit, ...) forward / max(limit, ...) backward (never looser)
+            b = du.expand(e, at) if at is not None else e
+            if isinstance(b, ast.Name):
+                return b.id == limit
+            return isinstance(b, ast.Call) and isinstance(b.func, ast.Name) and b.func.id == tighter and any(isinstance(a, ast.Name) and a.id == limit for a in b.args)
+
+        for w in loops:
+            wn = next((n for n in du.cfg.nodes if n.kind == "test" and n.stmt is w), None)
+            subs = [x for x in ast.walk(w.test) if isinstance(x, ast.Subscript) and isinstance(x.slice, ast.Name)]
+            for sb in subs:
+                o = sb.slice.id
+                ok = False
+                if isinstance(w.test, ast.BoolOp) and isinstance(w.test.op, ast.And):
+                    for v in w.test.values:
+                        if any(x is sb for x in ast.walk(v)):
+                            break
+                        if isinstance(v, ast.Compare) and len(v.ops) == 1:
+                            l, r = v.left, v.comparators[0]
+                            flipped = (ast.Gt,) if ops == (ast.Lt,) else (ast.Lt,)
+                            if isinstance(l, ast.Name) and l.id == o and isinstance(v.ops[0], ops) and is_limit(r, wn):
+                                ok = True
+                            if isinstance(r, ast.Name) and r.id == o and isinstance(v.ops[0], flipped) and is_limit(l, wn):
+                                ok = True
+                rr.inst(f"{short(fi)}:{norm(sb, 30)}", True, {"function": short(fi), "read": norm(sb, 30), "limit": limit, "guarded": ok})
+                if not ok:
+                    rr.add(finding("BOUND", fi, w, f"the scan reads `{norm(sb, 30)}` without first comparing {o} with {limit}: a run of continuation bytes without a lead byte in the range (invalid UTF-8, or a range that starts inside a character) takes the scan outside [start_offs, end_offs) - an offset outside the range is returned, or text[-len-1] raises IndexError", construct=f"utf8 scan read {norm(sb, 30)} not limited by {limit}"))
     return rr
 
 
@@ -763,6 +812,7 @@ def run(ctx: Ctx):
         rule_utf8_scan_bound(ctx),
         pairlen.run_pairlen(p, "C11.13", ["urwid.util.apply_target_encoding"], floor=4),
         rule_step_in_range(ctx),
+        rule_utf8_scan_range(ctx),
         rule_memo_globals(ctx),
         rule_dbe_consulted(ctx),
         rule_one_decoder(ctx),
@@ -775,6 +825,9 @@ def run(ctx: Ctx):
 _S = "urwid/str_util.py"
 _U = "urwid/util.py"
 MUTANTS = [
+    Mut("prev-char-scan-unbounded", "urwid/str_util.py", "move_prev_char", "while o > start_offs and text[o] & 0xC0 == 0x80:", "while text[o] & 0xC0 == 0x80:", "BOUND|str_util.move_prev_char|utf8 scan read text[o] not limited by start_offs"),
+    Mut("next-char-scan-unbounded", "urwid/str_util.py", "move_next_char", "while o < end_offs and text[o] & 0xC0 == 0x80:", "while text[o] & 0xC0 == 0x80:", "BOUND|str_util.move_next_char|utf8 scan read text[o] not limited by end_offs"),
+    Mut("twin-prev-char-bound-flipped", "urwid/str_util.py", "move_prev_char", "while o > start_offs and text[o] & 0xC0 == 0x80:", "while start_offs < o and text[o] & 0xC0 == 0x80:", twin=True),
     Mut("dec-table-tees-transposed", "urwid/display/escape.py", None, "├┤┴┬│", "├┤┬┴│", "TAB|display.escape|DEC special graphics alias 'v' paired with"),
     Mut("calc-text-pos-line-start-zero", "urwid/str_util.py", "calc_text_pos", "within_double_byte(text, start_offs, i) == 2", "within_double_byte(text, 0, i) == 2", "SIB|str_util.calc_text_pos|within_double_byte line start 0 instead of start_offs"),
     Mut("calc-width-ascii-str-shortcut", "urwid/str_util.py", "calc_width", "    if isinstance(text, str):\n        return sum(", "    if isinstance(text, str):\n        if text.isascii():\n            return end_offs - start_offs\n        return sum(", "SIB|str_util.calc_width|str width taken as character count"),
@@ -787,9 +840,9 @@ MUTANTS = [
     Mut("charset-run-of-unstripped-segment", _U, "apply_target_encoding", "cout.append((None, len(sis0)))", "cout.append((None, len(sis[0])))", "PAIRLEN|util.apply_target_encoding"),
     Mut("calc-width-by-wcswidth", _S, "calc_width", "    if isinstance(text, str):\n        return sum(", "    if isinstance(text, str):\n        if (width := wcwidth.wcswidth(text[start_offs:end_offs])) >= 0:\n            return width\n        return sum(", "SIB|str_util.calc_width"),
     Mut("next-char-scan-three-bytes", _S, "move_next_char", "        while o < end_offs and text[o] & 0xC0 == 0x80:", "        limit = min(end_offs, start_offs + 3)\n        while o < limit and text[o] & 0xC0 == 0x80:", "TAB|str_util.move_next_char"),
-    Mut("prev-char-scan-three-bytes", _S, "move_prev_char", "        while text[o] & 0xC0 == 0x80:", "        stop = max(start_offs, end_offs - 3)\n        while o > stop and text[o] & 0xC0 == 0x80:", "TAB|str_util.move_prev_char"),
+    Mut("prev-char-scan-three-bytes", _S, "move_prev_char", "        while o > start_offs and text[o] & 0xC0 == 0x80:", "        stop = max(start_offs, end_offs - 3)\n        while o > stop and text[o] & 0xC0 == 0x80:", "TAB|str_util.move_prev_char"),
     Mut("twin-next-char-scan-four-bytes", _S, "move_next_char", "        while o < end_offs and text[o] & 0xC0 == 0x80:", "        limit = min(end_offs, start_offs + 4)\n        while o < limit and text[o] & 0xC0 == 0x80:", twin=True),
-    Mut("twin-prev-char-scan-four-bytes", _S, "move_prev_char", "        while text[o] & 0xC0 == 0x80:", "        stop = max(start_offs, end_offs - 4)\n        while o > stop and text[o] & 0xC0 == 0x80:", twin=True),
+    Mut("twin-prev-char-scan-four-bytes", _S, "move_prev_char", "        while o > start_offs and text[o] & 0xC0 == 0x80:", "        stop = max(start_offs, end_offs - 4)\n        while o > stop and text[o] & 0xC0 == 0x80:", twin=True),
     Mut("str-scan-stops-at-target-column", _S, "calc_string_text_pos", "        width = get_char_width(text[idx])\n", "        if cols >= pref_col:\n            return idx, cols\n        width = get_char_width(text[idx])\n", "SIB|str_util.calc_string_text_pos"),
     Mut("four-byte-form-unbounded", _S, "decode_one", "if 0x10000 <= (o := ((b1 & 0x07) << 18) | ((b2 & 0x3F) << 12) | ((b3 & 0x3F) << 6) | (b4 & 0x3F)) <= 0x10FFFF:", "if (o := ((b1 & 0x07) << 18) | ((b2 & 0x3F) << 12) | ((b3 & 0x3F) << 6) | (b4 & 0x3F)) >= 0x10000:", "RANGE|str_util.decode_one"),
     Mut("twin-four-byte-bound-strict", _S, "decode_one", "<= 0x10FFFF:", "< 0x110000:", twin=True),
